@@ -3,6 +3,7 @@ use super::*;
 use super::libxcp::{Result, XcpError, AnyError, Reflink, Backup, target_base_of};
 
 pub use super::libxcp::Config;
+pub use super::libfs::is_same_file;
 /// `Opts` itself is extracted verbatim from src/options.rs (field attributes dropped); these are the types its fields use
 #[derive(Clone, Copy)]
 pub enum Drivers { ParFile, ParBlock }
